@@ -65,10 +65,9 @@ theorem hit_iff (ts : List Nat) : ∀ (i m j : Nat),
         right
         exact ⟨p, by omega, by simpa using h1, by rw [← h2]; congr 1; omega⟩
 
-/-- if bit `i` of `bs'` equals bit `t[i]` of `bs`, and `t` hits every position below `k` and nothing
-else, then relabelling the mask of `bs'` by `t` gives the mask of `bs` -/
+/-- if bit `i` of `bs'` equals bit `t[i]` of `bs`, and `t` hits every position below `k`, then relabelling the mask of `bs'` by `t` gives the mask of `bs` -/
 theorem applyPerm_toMask (t : List Nat) (bs bs' : List Bool) (k : Nat) (hb : bs.length = k)
-    (ht : t.length = k) (hlt : ∀ p, p < k → t.getD p 0 < k) (hsurj : ∀ j, j < k → ∃ p, p < k ∧ t.getD p 0 = j)
+    (ht : t.length = k) (hsurj : ∀ j, j < k → ∃ p, p < k ∧ t.getD p 0 = j)
     (hbits : ∀ p, p < k → bs'.getD p false = bs.getD (t.getD p 0) false) (hb' : bs'.length = k) :
     applyPerm t (toMask bs') = toMask bs := by
   apply Nat.eq_of_testBit_eq
